@@ -131,7 +131,16 @@ func (db *DB) put(tx *bbolt.Tx, obj *object.Object, nestingLevel int, currEpoch 
 	case exists:
 		return diff, nil
 	case errors.As(err, &apistatus.ObjectNotFound{}):
-		// OK, we're putting here.
+		// The object (or its parent) is marked as garbage. If it is
+		// already indexed in the same form there is nothing to add,
+		// indexing it again would count it twice.
+		if metaBkt != nil {
+			var c = metaBkt.Cursor()
+			if _, typErr := fetchTypeForID(c, obj.GetID()); typErr == nil &&
+				(nestingLevel > 0 || getObjAttribute(c, obj.GetID(), object.FilterPhysical) != nil) {
+				return diff, nil
+			}
+		}
 	case err != nil:
 		return diff, err // return any other errors
 	}
